@@ -282,6 +282,10 @@ func newWorld(withHost bool) *world {
 		c.SetHeader("X-Early", w.cur.tok)
 		w.stashClone(c, c.Clone())
 		w.respond(c)
+		// a second clone taken after the response was written, then a header set afterwards (a trailer, a
+		// middleware on its way out): the clone keeps the headers of the moment it was taken
+		w.stashClone(c, c.Clone())
+		c.SetHeader("X-Late", w.cur.tok)
 	}))
 	// a slash-adjusted match whose handler wraps its context with CloneWith: the clone and, afterwards, the parent
 	// still show the current request's values
